@@ -21,6 +21,10 @@ them and add what "a tag that lies" needs:
                        half    answers max(1, Le // 2) bytes
                        plus    ignores Le: answers up to Le + 3 bytes of the
                                file (real file content, in order)
+                       dup     answers the Le bytes asked for twice
+                     (zero and dup only for reads of the NDEF file at an
+                     offset > 0, i.e. for the message, so that the reader
+                     gets that far)
                      `case1='9000'`: READ BINARY without Le field (what a
                      reader sends for MLe = 0) is answered `9000` as ISO/IEC
                      7816-4 defines for a case 1 command, instead of 6700.
@@ -158,7 +162,9 @@ class HostileT4(t4t.Type4TagSim):
                 and self.cur is not None and not apdu[2] & 0x80:
             if len(apdu) == 4 and self.case1 == '9000':
                 return b'\x90\x00'
-            if len(apdu) == 5 and self.le_policy != 'exact':
+            if len(apdu) == 5 and self.le_policy != 'exact' and (
+                    self.le_policy in ('half', 'plus') or
+                    (self.cur == self.fid and (apdu[2] or apdu[3]))):
                 le = apdu[4] or 256
                 f = self.files[self.cur]
                 off = apdu[2] << 8 | apdu[3]
@@ -168,6 +174,8 @@ class HostileT4(t4t.Type4TagSim):
                         n = 0
                     elif self.le_policy == 'half':
                         n = max(1, le // 2)
+                    elif self.le_policy == 'dup':
+                        return bytes(f[off:off + le]) * 2 + b'\x90\x00'
                     else:
                         n = min(le + 3, len(f) - off)
                     return bytes(f[off:off + n]) + b'\x90\x00'
